@@ -126,7 +126,7 @@ impl<T: Elem> OutPort for Drainer<T> {
         let Some(r) = &self.r else { return (vec![], vec![]) };
         let (rb, tags) = r.read_buf().unwrap();
         let n = k.min(rb.len());
-        let vals: Vec<u64> = rb.slice()[..n].iter().map(|v| v.to_nat() as u64).collect();
+        let vals: Vec<u64> = rb.slice()[..n].iter().map(|v| v.to_obs() as u64).collect();
         let ts = tags
             .iter()
             .filter(|t| t.pos() < n)
